@@ -481,6 +481,23 @@ let op_latebound (args : str list) : str list =
   | Inl ks -> ["ok"; S.concat " " (List.map ikind_name ks)]
   | Inr ds -> ["err"; S.concat " " (List.map (fun (c, p) -> dec_of_n c ^ "@" ^ dec_of_n p) ds)]
 
+(* a library of function blocks and programs: "<hex text>" -> parsed <unit> <unit> .. | rejected | fuel | scope *)
+let sx_items ds =
+  let vars = List.filter_map (function DVar (n, c, q, i) -> Some ("(var " ^ lname n ^ " " ^ sx_class c ^ " " ^ sx_qual q ^ " " ^ sx_dinit i ^ ")") | _ -> None) ds in
+  let edges = List.filter_map (function DEdge (n, r, q) -> Some ("(edge " ^ lname n ^ " " ^ (if r then "r" else "f") ^ " " ^ sx_qual q ^ ")") | _ -> None) ds in
+  "(" ^ S.concat " " vars ^ ") (" ^ S.concat " " edges ^ ")"
+let op_lib (args : str list) : str list =
+  match args with
+  | [h] ->
+      (match parse_lib_text (text_of_hex h) with
+       | O3Parsed us ->
+           "parsed" :: List.map (fun u ->
+             "(" ^ (match u.u_kind with UFb -> "fb" | UProgram -> "program") ^ " " ^ lname u.u_name ^ " " ^ sx_items u.u_decls ^ " " ^ sx_list u.u_body ^ ")") us
+       | O3Rejected -> ["rejected"]
+       | O3Fuel -> ["fuel"]
+       | O3Scope -> ["scope"])
+  | _ -> ["bad-args"]
+
 (* renderer model with declarations: "<hex text>" -> the significant tokens the renderer model writes for the variables, the
    edge inputs and the statement list the parser model reads from the text | notparsed *)
 let op_fbdrender (args : str list) : str list =
@@ -501,7 +518,7 @@ let op_fbdrender (args : str list) : str list =
 
 let ops : (str * (str list -> str list)) list ref =
   ref [ ("lex", op_lex); ("semtok", op_semtok); ("decode", op_decode); ("lit", op_lit); ("cycle", op_cycle);
-        ("lsp", op_lsp); ("cli", op_cli); ("rule", op_rule); ("expr", op_expr); ("scope", op_scope); ("stmts", op_stmts); ("strender", op_strender); ("rules", op_rules); ("latebound", op_latebound); ("fbd", op_fbd); ("fbdrender", op_fbdrender) ]
+        ("lsp", op_lsp); ("cli", op_cli); ("rule", op_rule); ("expr", op_expr); ("scope", op_scope); ("stmts", op_stmts); ("strender", op_strender); ("rules", op_rules); ("latebound", op_latebound); ("fbd", op_fbd); ("fbdrender", op_fbdrender); ("lib", op_lib) ]
 
 
 let () =
